@@ -7,19 +7,11 @@ export GOFLAGS=-mod=mod GOPROXY=off GOSUMDB=off GOTOOLCHAIN=local
 mkdir -p bin evidence .work
 go build -o bin/vinstr ./cmd/vinstr
 go build ./rep ./seq ./vs/...
-# warm: plain and instrumented builds of every check (binaries are thrown away)
-W=.work/setup-$$
-mkdir -p "$W"
-trap 'rm -rf "$W"' EXIT
+# warm: the same plain / instrumented builds a check run performs (binaries are thrown away)
+tools/cachecap.sh
 for d in checks/c*/; do
-  d=${d%/}
-  if [ -f "$d/INSTRUMENTED" ]; then
-    bin/vinstr -work "$W/inst" -harness "./$d" $(cat "$d/INSTRUMENTED") >/dev/null
-    go build -tags verif -overlay "$W/inst/overlay.json" -o "$W/x.bin" "./$d"
-    rm -rf "$W/inst"
-  else
-    go build -o "$W/x.bin" "./$d"
-  fi
+  id=$(basename "$d" | tr a-z A-Z)
+  VERIF_BUILD_ONLY=1 ./check "$id" quick
 done
 tools/litmus.sh > .work/litmus.log 2>&1 || echo "WARNING: litmus conformance suite reported failures (see tools/litmus.sh)"
 echo setup ok
